@@ -192,14 +192,22 @@ def variantsDistinct (a : Ast) : Bool :=
     | .union u => variantsDistinctU a u
     | _ => true
 
+/-- no constant is named `c`: the emitted union decoders bind the discriminant as `c` in `c if c == E::V as ty`, and a `pub const c`
+    turns that binding into a constant pattern (finding K14: it compiles, and decodes wrongly) -/
+def noGuardConst (a : Ast) : Bool := (bget "c" a.constants).isNone
+
 /-- the supported subset -/
 def Supported (a : Ast) : Bool :=
-  keysOk a && a.types.all (fun kv => typeOk a kv.2) && constNamesOk a && enumConstsOk a && constsWellFormed a
+  keysOk a && a.types.all (fun kv => typeOk a kv.2) && constNamesOk a && enumConstsOk a && constsWellFormed a && noGuardConst a
 
 theorem Supported.facts {a : Ast} (h : Supported a = true) :
     keysOk a = true ∧ a.types.all (fun kv => typeOk a kv.2) = true ∧ constNamesOk a = true ∧ enumConstsOk a = true ∧
       constsWellFormed a = true := by
   simp only [Supported, Bool.and_eq_true] at h
-  exact ⟨h.1.1.1.1, h.1.1.1.2, h.1.1.2, h.1.2, h.2⟩
+  exact ⟨h.1.1.1.1.1, h.1.1.1.1.2, h.1.1.1.2, h.1.1.2, h.1.2⟩
+
+theorem Supported.noC {a : Ast} (h : Supported a = true) : bget "c" a.constants = none := by
+  simp only [Supported, Bool.and_eq_true, noGuardConst, Option.isNone_iff_eq_none] at h
+  exact h.2
 
 end Fx
